@@ -182,16 +182,34 @@ def mean_backward(grad:np.ndarray, a_shape:tuple, axis:'None| int | tuple', keep
 def max_forward(a, axis, keepdims):
     return np.max(a, axis=axis, keepdims=keepdims)
 
+def first_extremum_mask(a, axis, arg_fn):
+    """ Mask of ones and zeros with a one at the first (row-major order) extremal element of every group
+    of elements that a reduction over axis (None | int | tuple) combines. arg_fn is np.argmax or np.argmin """
+    if axis is None: axes = list(range(a.ndim))
+    elif isinstance(axis, int): axes = [axis]
+    else: axes = list(axis)
+    axes = sorted(ax + a.ndim if ax < 0 else ax for ax in axes)
+    kept = [ax for ax in range(a.ndim) if ax not in axes]
+    # reduced axes last, flattened into one axis
+    perm = kept + axes
+    moved = a.transpose(perm)
+    n_reduced = int(np.prod([a.shape[ax] for ax in axes]))
+    flat = moved.reshape(moved.shape[:len(kept)] + (n_reduced,))
+    flat_mask = np.zeros_like(flat)
+    np.put_along_axis(flat_mask, arg_fn(flat, axis=-1, keepdims=True), 1, axis=-1)
+    return flat_mask.reshape(moved.shape).transpose(np.argsort(perm))
+
 def max_backward(grad, a, axis, keepdims, max_indices=None):
     # Create mask of ones and zeros, where the maximum value is 1 
-    mask = np.zeros_like(a)
     if max_indices is None:
-        max_indices = np.argmax(a, axis=axis, keepdims=True)
-    if axis is None:
-        unr_indices = np.unravel_index(max_indices, a.shape)
-        mask[unr_indices] = 1
+        mask = first_extremum_mask(a, axis, np.argmax)
     else:
-        np.put_along_axis(mask, max_indices, 1, axis=axis)
+        mask = np.zeros_like(a)
+        if axis is None:
+            unr_indices = np.unravel_index(max_indices, a.shape)
+            mask[unr_indices] = 1
+        else:
+            np.put_along_axis(mask, max_indices, 1, axis=axis)
     
     if not keepdims and axis is not None:
         grad = unsqueeze_forward(grad, axis)
@@ -204,13 +222,7 @@ def min_forward(a, axis, keepdims):
 
 def min_backward(grad, a, axis, keepdims):
     # Create mask of ones and zeros, where the minimum value is 1 
-    mask = np.zeros_like(a)
-    indices_min = np.argmin(a, axis=axis, keepdims=True)
-    if axis is None:
-        unr_indices = np.unravel_index(indices_min, a.shape)
-        mask[unr_indices] = 1
-    else:
-        np.put_along_axis(mask, indices_min, 1, axis=axis)
+    mask = first_extremum_mask(a, axis, np.argmin)
     
     if not keepdims and axis is not None:
         grad = unsqueeze_forward(grad, axis)
